@@ -473,6 +473,101 @@ theorem decodeQuotedBody_convert {k : Conv} {e qc : Char} (W : Wf k e) (Q : QWf 
       rfl
     | ph n => exact absurd h convert_ph_ok
 
+/-! ## Deliverable 3b: literals emitted without quotes in a language that has a string quote -/
+
+theorem decodeBareBody_cons (k : Conv) (q : Str) (f : Nat) (c : Char) (rest : Str)
+    (h : stripPrefix q (c :: rest) = none) :
+    decodeBareBody k q (f+1) (c :: rest) =
+      (decodeBareBody k q f (nextTok k c rest).2).map ((nextTok k c rest).1 :: ·) := by
+  simp only [decodeBareBody, h]
+  rfl
+
+/-- the part of `QWf` a bare word needs (no condition on what follows the single-character token:
+nothing is appended to a bare word) -/
+structure QWf0 (k : Conv) (e qc : Char) : Prop where
+  qIn : qc ∈ k.escapedSet
+  qe : qc ≠ e
+  qmulti : ∀ m, k.multi = some m → m.head? ≠ some qc
+  qsingle : ∀ s, k.single = some s → s.head? ≠ some qc
+
+theorem qwf0_of {k : Conv} {e : Char} (W : Wf k e) {q : Str} (hq : quoteWf k q = true) :
+    ∃ qc, q = [qc] ∧ QWf0 k e qc := by
+  unfold quoteWf at hq
+  split at hq
+  next qc =>
+    simp only [Bool.and_eq_true] at hq
+    obtain ⟨⟨⟨h1, h2⟩, h3⟩, h4⟩ := hq
+    refine ⟨qc, rfl, by simpa using h1, ?_, ?_, ?_⟩
+    · rintro rfl; simp [W.esc] at h2
+    · intro m hm; simpa [hm] using h3
+    · intro s hs; simpa [hs] using h4
+  next => simp at hq
+
+theorem headOk_ne_quote0 {k : Conv} {e qc : Char} (Q : QWf0 k e qc) {t : Str} (ht : HeadOk k e t)
+    {c : Char} (hc : t.head? = some c) : c ≠ qc := by
+  rintro rfl
+  rcases ht c hc with h | h | ⟨m, hm, h⟩ | ⟨s, hs, h⟩
+  · exact Q.qe h
+  · exact h Q.qIn
+  · exact Q.qmulti m hm h
+  · exact Q.qsingle s hs h
+
+theorem decodeBareBody_convert {k : Conv} {e qc : Char} (W : Wf k e) (Q : QWf0 k e qc) :
+    ∀ (s : SStr) (t : Str), convert k s = .ok t → ∀ f, t.length < f →
+      decodeBareBody k [qc] f t = some (filtered k s) := by
+  intro s
+  induction s with
+  | nil =>
+    intro t h f _
+    simp [convert] at h; subst h
+    cases f <;> simp [decodeBareBody, filtered]
+  | cons p r ih =>
+    intro t h f hf
+    have hH := convert_headOk W _ _ h
+    have key : ∀ c t₁, t = c :: t₁ → stripPrefix [qc] (c :: t₁) = none := by
+      intro c t₁ ht
+      exact stripPrefix_head_ne (Ne.symm (headOk_ne_quote0 Q hH (by simp [ht])))
+    cases p with
+    | lit c =>
+      obtain ⟨t', hr, rfl⟩ := convert_lit_ok h
+      rw [filtered_lit]
+      by_cases hfil : k.filter.contains c = true
+      · simp only [hfil, if_true] at hf ⊢
+        exact ih t' hr f hf
+      · rw [Bool.not_eq_true] at hfil
+        simp only [hfil, Bool.false_eq_true, if_false] at hf key ⊢
+        by_cases hesc : k.escapedSet.contains c = true
+        · simp only [hesc, if_true, W.esc, Option.getD_some, List.cons_append, List.nil_append,
+            List.length_cons] at hf key ⊢
+          obtain ⟨f, rfl⟩ : ∃ f', f = f' + 1 := ⟨f - 1, by omega⟩
+          rw [decodeBareBody_cons _ _ _ _ _ (key _ _ rfl), nextTok_esc W, ih t' hr f (by omega)]
+          rfl
+        · have hesc' := hesc
+          rw [Bool.not_eq_true] at hesc'
+          simp only [hesc', Bool.false_eq_true, if_false, List.length_cons] at hf key ⊢
+          obtain ⟨f, rfl⟩ : ∃ f', f = f' + 1 := ⟨f - 1, by omega⟩
+          rw [decodeBareBody_cons _ _ _ _ _ (key _ _ rfl),
+            nextTok_plain W (by simpa using hesc), ih t' hr f (by omega)]
+          rfl
+    | star =>
+      obtain ⟨m, t', hm, hr, rfl⟩ := convert_star_ok h
+      obtain ⟨a, m', rfl, _⟩ := W.multiNe m hm
+      simp only [List.cons_append, List.length_cons, List.length_append] at hf key ⊢
+      obtain ⟨f, rfl⟩ : ∃ f', f = f' + 1 := ⟨f - 1, by omega⟩
+      rw [decodeBareBody_cons _ _ _ _ _ (key _ _ rfl), nextTok_multi W hm, ih t' hr f (by omega),
+        filtered_star]
+      rfl
+    | qm =>
+      obtain ⟨m, t', hm, hr, rfl⟩ := convert_qm_ok h
+      obtain ⟨a, m', rfl, _⟩ := W.singleNe m hm
+      simp only [List.cons_append, List.length_cons, List.length_append] at hf key ⊢
+      obtain ⟨f, rfl⟩ : ∃ f', f = f' + 1 := ⟨f - 1, by omega⟩
+      rw [decodeBareBody_cons _ _ _ _ _ (key _ _ rfl),
+        nextTok_single W hm t' (headOk_bad W (convert_headOk W r t' hr) hm),
+        ih t' hr f (by omega), filtered_qm]
+      rfl
+    | ph n => exact absurd h convert_ph_ok
+
 /-! ## Deliverable 4: the regular-expression form -/
 
 theorem reRead_esc (f : Nat) (c : Char) (r : Str) :
